@@ -62,6 +62,24 @@ theorem mulVec_smul (R : M3 ℝ) (k : ℝ) (a : V3 ℝ) : M3.mulVec R (V3.smul k
   obtain ⟨ax,ay,az⟩ := a
   ext <;> simp only [M3.mulVec, V3.smul_x, V3.smul_y, V3.smul_z] <;> ring
 
+/-! basic homogeneity of the vector operations (used by every scaling lemma) -/
+theorem V3.smul_sub (k : ℝ) (a b : V3 ℝ) : V3.smul k (a - b) = V3.smul k a - V3.smul k b := by
+  ext <;> simp <;> ring
+theorem V3.smul_add (k : ℝ) (a b : V3 ℝ) : V3.smul k (a + b) = V3.smul k a + V3.smul k b := by
+  ext <;> simp <;> ring
+theorem V3.cross_smul (k : ℝ) (a b : V3 ℝ) :
+    V3.cross (V3.smul k a) (V3.smul k b) = V3.smul (k * k) (V3.cross a b) := by
+  ext <;> simp [V3.cross] <;> ring
+theorem V3.dot_smul (k l : ℝ) (a b : V3 ℝ) : V3.dot (V3.smul k a) (V3.smul l b) = k * l * V3.dot a b := by
+  simp [V3.dot]; ring
+theorem V3.get_smul (k : ℝ) (a : V3 ℝ) (i : Nat) : (V3.smul k a).get i = k * a.get i := by
+  unfold V3.get; split_ifs <;> rfl
+theorem V3.norm_smul (k : ℝ) (a : V3 ℝ) : V3.norm (V3.smul k a) = |k| * V3.norm a := by
+  unfold V3.norm V3.normSq
+  rw [V3.dot_smul, Scalar.sqrt_real, Scalar.sqrt_real, Real.sqrt_mul (mul_self_nonneg k), Real.sqrt_mul_self_eq_abs]
+theorem V3.norm_smul_nonneg {k : ℝ} (hk : 0 ≤ k) (a : V3 ℝ) : V3.norm (V3.smul k a) = k * V3.norm a := by
+  rw [V3.norm_smul, abs_of_nonneg hk]
+
 namespace IsRot
 variable {R : M3 ℝ} (h : IsRot R)
 include h
